@@ -675,7 +675,7 @@ pub fn check(tier: &str) -> i32 {
         level: "exploration".into(),
         evaluations: n as u64,
         distinct_nontrivial: distinct.len() as u64,
-        rule: "seeded scenarios: (a) 2-3 of build/check/test on the same project after an optional build+edits, (b) 2-3 builds of two projects sharing a cold user cache with the standard library enabled, (c) two projects sharing a cold user cache and a git dependency (local file:// repository created with veryl's own Git/publish API, pinned to a release behind HEAD; gates between clone, fetch and checkout), (d) 1-2 build/check processes next to 1-2 language-server processes (real Server on the shim queue, gates owned by the same coordinator) on one project; a seeded scheduler (biased to switch after existence checks, truncations, lock hand-overs and between files of a multi-file write; 1 in 8 run-to-completion) picks the next process at every gate. distinct_nontrivial = distinct interleavings (hash of the actor/gate sequence) with at least two context switches".into(),
+        rule: "seeded scenarios: (a) 2-3 of build/check/test on the same project after an optional build+edits, (b) 2-3 builds of two projects sharing a cold user cache with the standard library enabled, (c) two projects sharing a cold user cache and a git dependency (local file:// repository created with veryl's own Git/publish API, pinned to a release behind HEAD; gates between clone, fetch and checkout), (d) 1-2 build/check processes next to 1-2 language-server processes (real Server on the shim queue, gates owned by the same coordinator) on one project; a seeded scheduler (biased to switch after existence checks, truncations, lock hand-overs and between files of a multi-file write; 1 in 8 run-to-completion; schedule faults: a late starter held at its first gates for 8-128 decisions, and an actor stalled for 20-220 decisions right after it entered a multi-step publish such as clone/fetch/checkout or mkdir/expand, or with probability 1/3 at another hot gate) picks the next process at every gate. distinct_nontrivial = distinct interleavings (hash of the actor/gate sequence) with at least two context switches".into(),
         samples,
         extra,
         assumptions: vec![
